@@ -32,6 +32,10 @@ Qed.
 Lemma refines_rewrap {A} (a b : res A) : refines a b -> refines (rewrap a) (rewrap b).
 Proof. intros [H|H]; subst; [apply refines_refl | right; reflexivity]. Qed.
 
+Lemma refines_if {A} (b : bool) (c a1 a2 : res A) :
+  refines a1 a2 -> refines (if b then c else a1) (if b then c else a2).
+Proof. destruct b; [intros _; apply refines_refl | auto]. Qed.
+
 Lemma refines_mapR {A B} (f1 f2 : A -> res B) l :
   (forall x, refines (f1 x) (f2 x)) -> refines (mapR f1 l) (mapR f2 l).
 Proof.
@@ -131,14 +135,20 @@ Section Monotone.
       destruct k; by_j j ign;
         (apply refines_bind; [apply refines_mapR; intro x; apply refines_rewrap, IHf | intro r; apply refines_refl]).
     - (* FSeqPos *)
-      destruct k; by_j j ign;
+      destruct k; by_j j ign; cbn [list_like]; apply refines_if;
         (apply refines_bind; [apply mono_pos; assumption | intro r; apply refines_refl]).
     - (* FSet Some *)
       by_j j ign;
         (apply refines_bind; [apply refines_mapR; intro x; apply refines_rewrap, IHf | intro r; apply refines_refl]).
     - (* FTuple *)
-      by_j j ign;
-        (apply refines_bind; [apply mono_pos; assumption | intro r; apply refines_refl]).
+      destruct fs as [|g0 [|g1 fs']].
+      + by_j j ign.
+      + (* one item field: every element *)
+        inversion H as [|? ? Hg0 _]; subst.
+        by_j j ign;
+          (apply refines_bind; [apply refines_mapR; intro x; apply refines_rewrap, Hg0 | intro r; apply refines_refl]).
+      + by_j j ign; cbn [list_like]; apply refines_if;
+          (apply refines_bind; [apply (mono_pos (g0 :: g1 :: fs')); assumption | intro r; apply refines_refl]).
     - (* FMapKV *)
       by_j j ign;
         (apply refines_bind; [|intro r; apply refines_refl];
@@ -206,6 +216,9 @@ End Agree.
 
 Lemma rewrap_ok {A} (r : res A) y : rewrap r = Ok y -> r = Ok y.
 Proof. destruct r as [z|x]; cbn [rewrap]; [auto|]. destruct (is_te_ve x); discriminate. Qed.
+
+Lemma rewrap_ve_ok {A} (r : res A) y : rewrap_ve r = Ok y -> r = Ok y.
+Proof. destruct r as [z|x]; cbn [rewrap_ve]; [auto|]. destruct (is_ve x); discriminate. Qed.
 
 Section Deep.
   Variable re_match : N -> pystr -> bool.
@@ -301,18 +314,18 @@ Section Deep.
     | bind ?r _ = Ok _ => let u := fresh "u" in destruct r as [u|] eqn:?; [|discriminate]; cbn [bind] in H
     end.
 
-  Lemma deep_pairs f1 f2 : V f1 -> V f2 -> forall kv u,
-    mapR (fun p : pyval * pyval => k' <- dval true false f1 (fst p) ;; v' <- dval true false f2 (snd p) ;; Ok (k', v')) kv = Ok u ->
+  Lemma deep_pairs f1 f2 : V f1 -> V f2 -> forall ku kv u,
+    mapR (fun p : pyval * pyval => k' <- dval ku false f1 (fst p) ;; v' <- dval ku false f2 (snd p) ;; Ok (k', v')) kv = Ok u ->
     forallb (fun p => dv (fst p) && dv (snd p)) kv = true ->
     forallb (fun p => dv (fst p) && dv (snd p)) (dict_of_pairs [] u) = true.
   Proof.
-    intros H1 H2 kv u HH Dj.
+    intros H1 H2 ku kv u HH Dj.
     assert (Hr : Forall (fun p => dv (fst p) = true /\ dv (snd p) = true) u).
     { revert u HH Dj. induction kv as [|p kv' IHkv]; cbn [mapR]; intros u0 HH Dj.
       - inversion HH; constructor.
       - cbn [forallb] in Dj. apply andb_true_iff in Dj as [Dp Dt]. apply andb_true_iff in Dp as [Dk Dx].
-        destruct (dval true false f1 (fst p)) as [k'|] eqn:Ek; [|discriminate]. cbn [bind] in HH.
-        destruct (dval true false f2 (snd p)) as [v'|] eqn:Ev; [|discriminate]. cbn [bind] in HH.
+        destruct (dval ku false f1 (fst p)) as [k'|] eqn:Ek; [|discriminate]. cbn [bind] in HH.
+        destruct (dval ku false f2 (snd p)) as [v'|] eqn:Ev; [|discriminate]. cbn [bind] in HH.
         match type of HH with match ?m with _ => _ end = _ => destruct m as [r'|] eqn:Er; [|discriminate] end.
         inversion HH; subst. constructor.
         + cbn [fst snd]. split; [eapply H1 | eapply H2]; eauto.
@@ -347,13 +360,12 @@ Section Deep.
     - (* FNumber *) destruct j; try destruct ign; cbn [orb] in Hw; none_case Hw Dj; bind_ok Hw; inversion Hw; subst; exact Dj.
     - (* FString *) destruct j; try destruct ign; cbn [orb] in Hw; none_case Hw Dj; bind_ok Hw; inversion Hw; subst; exact Dj.
     - (* FBoolean *) destruct j; try destruct ign; cbn [orb] in Hw; none_case Hw Dj; bind_ok Hw; inversion Hw; subst; exact Dj.
-    - (* FNone *) destruct j; try destruct ign; cbn [orb] in Hw; none_case Hw Dj; try discriminate;
-        repeat match type of Hw with
-               | match ?l with _ => _ end = _ => destruct l; try discriminate
-               end; inversion Hw; reflexivity.
+    - (* FNone *) destruct j; try destruct ign; cbn [orb] in Hw; none_case Hw Dj; discriminate.
     - (* FAnything *) destruct j; try destruct ign; cbn [orb] in Hw; none_case Hw Dj.
-    - (* FEnumLit *) destruct j; try destruct ign; cbn [orb] in Hw; none_case Hw Dj; bind_ok Hw; inversion Hw; subst; exact Dj.
-    - (* FEnumCls *) destruct j; try destruct ign; cbn [orb] in Hw; none_case Hw Dj; eapply deep_enum; eauto.
+    - (* FEnumLit *) destruct j; try destruct ign; cbn [orb] in Hw; none_case Hw Dj; apply rewrap_ve_ok in Hw;
+        bind_ok Hw; inversion Hw; subst; exact Dj.
+    - (* FEnumCls *) destruct j; try destruct ign; cbn [orb] in Hw; none_case Hw Dj; apply rewrap_ve_ok in Hw;
+        eapply deep_enum; eauto.
     - (* FSeqAny *)
       destruct k; destruct j; try destruct ign; cbn [orb] in Hw; none_case Hw Dj;
         match type of Hw with match list_like ?v with _ => _ end = _ =>
@@ -370,6 +382,7 @@ Section Deep.
       destruct k; destruct j; try destruct ign; cbn [orb] in Hw; none_case Hw Dj;
         match type of Hw with match list_like ?v with _ => _ end = _ =>
           destruct (list_like v) as [l0|] eqn:El; [|discriminate] end;
+        (match type of Hw with (if ?b then _ else _) = _ => destruct b; [discriminate|] end);
         bind_ok Hw; (eapply dv_build_seq; [exact Hw|]);
         (eapply deep_pos; [eassumption | eassumption | eapply dv_list_like; eauto]).
     - (* FSet None *)
@@ -385,18 +398,33 @@ Section Deep.
         (eapply dv_mapR; [| eassumption | eapply dv_list_like; eauto]);
         intros x y Hx Dx; apply rewrap_ok in Hx; eapply IHf; eauto.
     - (* FTuple *)
-      destruct j; try destruct ign; cbn [orb] in Hw; none_case Hw Dj;
-        match type of Hw with match list_like ?v with _ => _ end = _ =>
-          destruct (list_like v) as [l0|] eqn:El; [|discriminate] end;
-        bind_ok Hw; (eapply dv_build_seq; [exact Hw|]);
-        (eapply deep_pos; [eassumption | eassumption | eapply dv_list_like; eauto]).
+      destruct fs as [|g0 [|g1 fs']].
+      + destruct j; try destruct ign; cbn [orb] in Hw; none_case Hw Dj;
+          match type of Hw with match list_like ?v with _ => _ end = _ =>
+            destruct (list_like v) as [l0|] eqn:El; [|discriminate] end;
+          cbn [length Nat.ltb Nat.leb bind] in Hw;
+          (eapply dv_build_seq; [exact Hw | eapply dv_list_like; eauto]).
+      + (* one item field: every element *)
+        inversion H as [|? ? Hg0 _]; subst.
+        destruct j; try destruct ign; cbn [orb] in Hw; none_case Hw Dj;
+          match type of Hw with match list_like ?v with _ => _ end = _ =>
+            destruct (list_like v) as [l0|] eqn:El; [|discriminate] end;
+          bind_ok Hw; (eapply dv_build_seq; [exact Hw|]);
+          (eapply dv_mapR; [| eassumption | eapply dv_list_like; eauto]);
+          intros x y Hx Dx; apply rewrap_ok in Hx; eapply Hg0; eauto.
+      + destruct j; try destruct ign; cbn [orb] in Hw; none_case Hw Dj;
+          match type of Hw with match list_like ?v with _ => _ end = _ =>
+            destruct (list_like v) as [l0|] eqn:El; [|discriminate] end;
+          (match type of Hw with (if ?b then _ else _) = _ => destruct b; [discriminate|] end);
+          bind_ok Hw; (eapply dv_build_seq; [exact Hw|]);
+          (eapply (deep_pos (g0 :: g1 :: fs')); [eassumption | eassumption | eapply dv_list_like; eauto]).
     - (* FMapAny *) destruct j; try destruct ign; cbn [orb] in Hw; none_case Hw Dj; try discriminate.
     - (* FMapKV *)
       destruct j; try destruct ign; cbn [orb] in Hw; none_case Hw Dj; try discriminate;
         bind_ok Hw;
         (match type of Hw with (if ?b then _ else _) = _ => destruct b; [|discriminate] end);
         inversion Hw; subst;
-        match goal with HH : mapR _ _ = Ok _ |- _ => exact (deep_pairs f1 f2 IHf1 IHf2 _ _ HH Dj) end.
+        match goal with HH : mapR _ _ = Ok _ |- _ => exact (deep_pairs f1 f2 IHf1 IHf2 _ _ _ HH Dj) end.
     - (* FAllOf *) destruct j; try destruct ign; cbn [orb] in Hw; none_case Hw Dj;
         eapply (deep_multi MAll (length fs) fs H); eauto.
     - (* FAnyOf *) destruct j; try destruct ign; cbn [orb] in Hw; none_case Hw Dj;
